@@ -56,8 +56,33 @@ pub fn tmpl(mut t: T) -> Template {
     Template {
         name,
         make: Box::new(move |rng: &mut Rng| {
-            let nodes = rng.range(t.nodes.0, t.nodes.1);
-            let max_edits = rng.range(t.edits.0, t.edits.1);
+            let mut nodes = rng.range(t.nodes.0, t.nodes.1);
+            let mut max_edits = rng.range(t.edits.0, t.edits.1);
+            // one run in twelve is a long history on few replicas (per-actor counters reach two digits)
+            if rng.chance(1, 12) {
+                nodes = nodes.min(3);
+                max_edits = rng.range(t.edits.1, (t.edits.1 * 3).min(42));
+            }
+            // sequences: one run in forty is two replicas typing long runs at an advancing cursor
+            let long_typing = (t.family == "list" || t.family == "glist") && !t.redundancy_every && !t.bounce_every && rng.chance(1, 40);
+            if long_typing {
+                nodes = 2;
+                max_edits = rng.range(80, 116);
+            }
+            // actor identifiers: node index, or far apart and in either order
+            let actor_ids: Vec<u8> = if rng.chance(1, 2) {
+                vec![]
+            } else {
+                let pool: [u8; 8] = [0, 1, 2, 9, 10, 17, 128, 255];
+                let mut ids: Vec<u8> = vec![];
+                while ids.len() < nodes {
+                    let c = pool[rng.below(pool.len())];
+                    if !ids.contains(&c) {
+                        ids.push(c);
+                    }
+                }
+                ids
+            };
             let disc = *rng.pick(&t.discs);
             let repl = *rng.pick(&t.repls);
             // swarm: each run enables its own subset of fault kinds, sometimes none
@@ -81,7 +106,7 @@ pub fn tmpl(mut t: T) -> Template {
                 nkeys: rng.range(if t.misuse { 2 } else { 1 }, 3) as u8,
                 nmembers: rng.range(if t.misuse { 2 } else { 1 }, 3) as u8,
                 max_edits,
-                max_events: max_edits * 7 + 12,
+                max_events: if long_typing { max_edits * 4 } else { max_edits * 7 + 12 },
                 json_wire: t.json,
                 misuse: t.misuse,
                 clauses: t.clauses.iter().map(|s| s.to_string()).collect(),
@@ -92,6 +117,9 @@ pub fn tmpl(mut t: T) -> Template {
                 p_probe: t.p_probe,
                 quiesce: t.quiesce,
                 // equal values: concurrent equal register writes, re-writing the held LWW value, equal GList elements
+                actor_ids,
+                long_typing,
+                odd_inputs: rng.chance(1, 3),
                 bounce_every: t.bounce_every && rng.chance(1, 5),
                 redundancy_every: t.redundancy_every && rng.chance(1, 6),
                 dup_values: (t.dups || t.family.contains("mvreg") || t.family == "lww" || t.family == "merkle") && rng.chance(1, 2),
